@@ -114,7 +114,11 @@ func runC18(rc *RunCtx) {
 	if err := h.Policy("reader", `path "secret/*" { capabilities = ["read"] }`); err != nil {
 		panic(err)
 	}
-	other, _, err := h.CreateToken("", map[string]any{"policies": []string{"default"}})
+	// (the default policy grants sys/wrapping/{wrap,lookup,unwrap} but not rewrap)
+	if err := h.Policy("rewrapper", `path "sys/wrapping/rewrap" { capabilities = ["update"] }`); err != nil {
+		panic(err)
+	}
+	other, _, err := h.CreateToken("", map[string]any{"policies": []string{"default", "rewrapper"}})
 	if err != nil {
 		panic(err)
 	}
@@ -323,6 +327,11 @@ func runC18(rc *RunCtx) {
 					o.newTok = resp.WrapInfo.Token
 				}
 				o.gotCanary = gotPayload(resp)
+				if o.newTok != "" {
+					s.Probe("rewrap_minted_new_token")
+				} else {
+					s.Probe("rewrap_refused")
+				}
 				record(o)
 			case "lookup":
 				resp, err := h.Do(name, Req{Op: logical.UpdateOperation, Path: "sys/wrapping/lookup", Token: other, Data: map[string]any{"token": wtok}})
@@ -389,7 +398,10 @@ func runC18(rc *RunCtx) {
 		s.Violate("C18", "payload-delivered-more-than-once", sig, "payload handed out %d times (in race: %d); outcomes %+v", delivered, concurrent, outs)
 		return
 	}
-	if delivered == 0 && !revoked && s.Faults["err-na"] == 0 {
+	// (a token rewrapped during the race lives for the original TTL; the race and
+	// the settling after it take up to ~12 simulated seconds, so with a TTL
+	// below that the new token may legitimately have expired by now)
+	if delivered == 0 && !revoked && s.Faults["err-na"] == 0 && ttl > 20*time.Second {
 		s.Violate("C18", "payload-lost", sig, "no unwrap obtained the payload although nothing revoked it; outcomes %+v", outs)
 		return
 	}
